@@ -340,6 +340,56 @@ def zero_length_policy(repo):
     return False, False, [f"checkpoint sidecar guard not recognised: `{cond}`"]
 
 
+def decision_facts(fns):
+    """Facts about the two invocations whose no-op case is decided by a search (Model/C02Decide.v):
+    (scan) in ensure_default the log scan find_latest_continuity_for_workspace is on the straight-line path: it is the
+    scrutinee of an `if let` at block depth 0 and the only `return` before it is the one of the in-memory index hit -
+    so it runs whenever the in-memory index does not know the workspace, whatever is on disk (model: skip = false);
+    (strict) in provider_cursor_rotate_v1 the closure matches_filter rejects a cursor whose recorded endpoint / model
+    differs from `Some(filter)` - an absent recorded field passes no filter (model: lenient = false).
+    Not recognised => false (the obligation fails)."""
+    notes = []
+    scan = False
+    body = None if fns is None else fns.get("ensure_default")
+    if body is None:
+        notes.append("ensure_default not found")
+    else:
+        k = body.find("find_latest_continuity_for_workspace")
+        if k < 0 or body.count("find_latest_continuity_for_workspace") != 1:
+            notes.append("ensure_default: exactly one call of find_latest_continuity_for_workspace expected")
+        else:
+            pre = body[:k]
+            depth0 = pre.count("{") - pre.count("}") == 0
+            scrut = re.search(r"if\s+let\s+Some\(\s*\w+\s*\)\s*=\s*self\s*\.\s*$", pre) is not None
+            rets = [m.start() for m in re.finditer(r"\breturn\b", pre)]
+            mem_hit = False
+            if len(rets) == 1:
+                hdr = pre[:rets[0]]
+                j = hdr.rfind("if let")
+                mem_hit = j >= 0 and re.search(r"self\s*\.\s*index\b", hdr[j:]) is not None and "workspaces" in hdr[j:] and "exists" not in hdr[j:]
+            other = re.search(r"\b(exists|metadata|try_exists|is_file|read_dir)\s*\(", pre) is not None
+            scan = depth0 and scrut and mem_hit and not other
+            notes.append(f"ensure_default: log scan at block depth 0: {depth0}; scrutinee of an `if let`: {scrut}; the only earlier return is the in-memory index hit: {mem_hit}; file-system test before the scan: {other}")
+    strict = False
+    body = None if fns is None else fns.get("provider_cursor_rotate_v1")
+    if body is None:
+        notes.append("provider_cursor_rotate_v1 not found")
+    else:
+        m = re.search(r"let\s+matches_filter\s*=\s*\|[^|]*\|\s*->\s*bool\s*\{", body)
+        if not m:
+            notes.append("provider_cursor_rotate_v1: closure matches_filter not found")
+        else:
+            cl = re.sub(r"\s+", "", brace_body(body, m.end()))
+            ok = []
+            for fld in ("endpoint", "model"):
+                ok.append(f"ifletSome(filter)=req.{fld}.as_deref(){{if{fld}!=Some(filter){{returnfalse;}}}}" in cl)
+            prov = "ifletSome(filter)=req.provider.as_deref(){ifprovider!=filter{returnfalse;}}" in cl
+            lax = re.search(r"is_some_and|map_or|is_none_or|unwrap_or|is_none\(", cl) is not None
+            strict = all(ok) and prov and not lax and cl.endswith("true")
+            notes.append(f"provider_cursor_rotate_v1.matches_filter: endpoint / model compared as `recorded != Some(filter)`: {ok}; provider: {prov}; lenient combinator present: {lax}")
+    return scan, strict, notes
+
+
 def cb(b):
     return "true" if b else "false"
 
@@ -376,6 +426,11 @@ def main():
     except Exception as e:  # noqa: BLE001
         zl_found, zl_absent, znotes = False, False, [f"zero-length policy: {e}"]
     notes += znotes
+    try:
+        d_scan, d_strict, dnotes = decision_facts(fns)
+    except Exception as e:  # noqa: BLE001
+        d_scan, d_strict, dnotes = False, False, [f"decision facts: {e}"]
+    notes += dnotes
     L = ["(* GENERATED by tools/gen/callgraph.py from crates/ripd/src/continuities.rs, server.rs and the cache modules - do not edit.",
          "   Which capability / route can reach `self.event_log.append` (C02, T1). *)",
          "From Coq Require Import String.",
@@ -413,6 +468,14 @@ def main():
          f"Definition gen_zero_length_policy_found : bool := {cb(zl_found)}.",
          f"Definition gen_zero_length_comp_sidecar_is_absent : bool := {cb(zl_absent)}.", "",
          "Lemma gen_zero_length_policy_ok : gen_zero_length_policy_found = true.",
+         "Proof. vm_compute. reflexivity. Qed.", "",
+         "(* the searches that decide a no-op (Model/C02Decide.v): ensure_default scans the log whenever the in-memory index",
+         "   does not know the workspace (no test of what is on disk before it: model `ensure false`); the filters of",
+         "   provider_cursor_rotate_v1 reject a cursor whose recorded endpoint / model is absent (model `rot_match false`) *)",
+         f"Definition gen_ensure_scans_the_log_whenever_memory_misses : bool := {cb(d_scan)}.",
+         f"Definition gen_rotate_filters_reject_absent_fields : bool := {cb(d_strict)}.", "",
+         "Lemma gen_decisions_ok :",
+         "  gen_ensure_scans_the_log_whenever_memory_misses && gen_rotate_filters_reject_absent_fields = true.",
          "Proof. vm_compute. reflexivity. Qed.", "",
          "(* the correspondence cases of C02 are checked under the policy the source has *)",
          "Definition check_case_c02g := check_case_c02x_zl gen_zero_length_comp_sidecar_is_absent.",
